@@ -4,11 +4,12 @@ PROGS = {
  "cond_macro": ".msp430\\n.define X 1\\n.if X == 1\\n  mov.w #5, r4\\n.else\\n  nop\\n.endif\\n.macro M(a)\\n  .db a\\n.endm\\nM(3)\\n",
  "z80": ".z80\\n.org 0x100\\n  ld a, 5\\n  jr nz, l\\nl: ret\\n  .dw 0x1234\\n",
  "data_expr": ".msp430\\n.dc32 1 + 2 * 3, (4 - 1) << 2\\n.ascii \\\"hi\\\"\\n.align 16\\n.db 1\\n",
+ "comments": ".msp430\\n.org 0x100\\n  mov.w #1, r4\\n/* block */\\n  mov.w #2, r5 ; tail\\n// line\\n  .db 3\\n",
  "scope_set": ".6502\\n.org 0x200\\n.scope\\nl: lda #1\\n  bne l\\n.ends\\n.set v=3\\n  lda v\\n.dw l2\\nl2:\\n",
 }
 def jobs(tier):
     js = []
-    combos = [("msp430_basic", "hex", False), ("cond_macro", "hex", False), ("z80", "bin", False), ("data_expr", "srec", False), ("msp430_basic", "hex", True)]
+    combos = [("msp430_basic", "hex", False), ("cond_macro", "hex", False), ("z80", "bin", False), ("data_expr", "srec", False), ("msp430_basic", "hex", True), ("comments", "hex", False)]
     if tier == "thorough":
         combos += [("scope_set", "hex", False), ("cond_macro", "bin", True), ("z80", "hex", True), ("data_expr", "hex", False), ("scope_set", "srec", True)]
     for prog, typ, lst in combos:
@@ -20,7 +21,7 @@ def jobs(tier):
 def main(tier):
     return vp.check_property("C12", tier, jobs(tier),
         "The real main() of naken_asm (argument parsing, both passes, link, file_write, listing, unlink) runs on the engine's in-memory file system on a small valid program with one "
-        "symbolic single-character corruption: the position is enumerated by the engine, the replacement character is symbolic over 14 lexical classes and the solver decides every "
+        "symbolic single-character corruption: the position is enumerated by the engine, the replacement character is symbolic over 16 lexical classes (letter, digit, space, newline, hash, comma, dot, colon, quote, parenthesis, tick, semicolon, dollar, slash, star, non-ASCII byte) and the solver decides every "
         "tokenizer/parser branch; on every path Z3 decides that exit status 0 <=> no error diagnostic and a written output file, and that a failing run leaves no (stale) file at the output path.",
         ["programs and option sets listed in checks/C12.py (MSP430, Z80, 6502; hex/bin/srec; -l on/off); stdout captured exactly; a diagnostic is a line containing Error/error/Cannot/Unknown",
          "single-character substitutions only (insertions/deletions/multi-point corruptions outside the bound); unreadable source files outside the claim",
